@@ -1016,11 +1016,13 @@ async fn isolation(r: &mut Rng) -> (String, String) {
 ///      requesting endpoint are dropped: no protocol error, the listener gets every request, then the end
 async fn answers(r: &mut Rng) -> (String, String) {
     use remoc::chmux::PortsExhausted;
+    // (variant 3 is drawn separately so that recorded seeds of variants 0-2 keep their meaning)
     let variant = r.below(3);
     let mut ca = cfg(r, None);
     let mut cb = cfg(r, None);
     ca.max_ports = 100;
     cb.max_ports = 100;
+    let variant = if r.chance(1, 4) { 3 } else { variant };
     match variant {
         0 => {
             cb.shared_send_queue = 1;
@@ -1109,6 +1111,68 @@ async fn answers(r: &mut Rng) -> (String, String) {
                 _ => return (sig, format!("FAIL: C10 connect answered late resolved as {res:?}")),
             }
             drop(keep);
+            (sig, "ok".into())
+        }
+        3 => {
+            //   3: connect requests are abandoned (their futures dropped) while the remote listener is idle; however many
+            //      are issued, the number of unanswered requests on the wire never exceeds the queue length the peer
+            //      advertised, and the connection survives
+            use remoc::chmux::PortsExhausted;
+            let q = r.range(1, 3) as u16;
+            cb.connect_queue = q;
+            ca.ports_exhausted = PortsExhausted::Fail;
+            let wait = r.chance(1, 2);
+            let total = q as usize + r.range(2, 6) as usize;
+            let sig = format!("answers:abandoned:q{q}:{}", if wait { "wait" } else { "nowait" });
+            let mut p = conn::connect(ca, cb).await;
+            let seen0 = p.net.a2b.log_len();
+            let mut issued = 0;
+            for _ in 0..total {
+                // the request future is polled once and dropped; so is the connect it returns
+                match p.a_client.connect_ext(None, wait).now_or_never() {
+                    Some(Ok(c)) => {
+                        issued += 1;
+                        drop(c);
+                    }
+                    _ => {}
+                }
+                quiesce().await;
+            }
+            for _ in 0..3 {
+                quiesce().await;
+            }
+            let frames = p.net.a2b.log_from(seen0);
+            let opens = conn::group(&frames).iter().filter(|m| matches!(m.msg, remoc::chmux::verif::MultiplexMsg::OpenPort { .. })).count();
+            if opens > q as usize {
+                return (sig, format!("FAIL: C10 {opens} unanswered open requests are on the wire although the peer advertised a connect queue of {q} ({issued} connects issued and abandoned)"));
+            }
+            if p.mux_a.is_finished() || p.mux_b.is_finished() {
+                return (sig, "FAIL: C10 the connection failed after connect requests were abandoned".into());
+            }
+            // the listener answers what it got; afterwards new requests go through again
+            let mut guard = 0;
+            while let Some(Ok(Some(req))) = p.b_listener.inspect().now_or_never() {
+                drop(req);
+                quiesce().await;
+                guard += 1;
+                if guard > 20 {
+                    break;
+                }
+            }
+            for _ in 0..3 {
+                quiesce().await;
+            }
+            let c = p.a_client.clone();
+            let task = tokio::spawn(async move { c.connect().await.map(|_| ()) });
+            quiesce().await;
+            let acc = p.b_listener.accept();
+            let got = tokio::time::timeout(Duration::from_secs(5), acc).await;
+            for _ in 0..3 {
+                quiesce().await;
+            }
+            if !task.is_finished() || !matches!(got, Ok(Ok(Some(_)))) {
+                return (sig, "FAIL: C10 after the abandoned requests were answered a new connect does not go through".into());
+            }
             (sig, "ok".into())
         }
         _ => {
